@@ -6,5 +6,13 @@ import Stackage.Gen.Conds
 import Stackage.Gen.Facts
 import Stackage.Model.Val
 import Stackage.Model.Ops
+import Stackage.Gen.Opts
+import Stackage.Model.LogLevel
+import Stackage.Model.Options
+import Stackage.Spec.OptSpec
+import Stackage.Spec.OptLink
+import Stackage.Model.Defrag
+import Stackage.Spec.DefragSpec
+import Stackage.Props.C20
 import Stackage.Model.EV
 import Stackage.Model.Equal
